@@ -162,6 +162,13 @@ pub mod sim {
             .flatten()
     }
 
+    /// False once the execution engine's state is gone (after a failed run, or at process exit):
+    /// shim objects dropped then must not touch the engine.
+    pub fn in_execution() -> bool {
+        use shuttle_engine::runtime::execution::ExecutionStateBorrowError;
+        !matches!(ExecutionState::try_with(|_| ()), Err(ExecutionStateBorrowError::NotSet))
+    }
+
     pub fn note_role(role: Role) {
         if let Some(t) = current_task() {
             STATE.with(|s| {
